@@ -399,6 +399,9 @@ func (m *mstate) itemLane(n *NodeSpec, v, i int, it *Item, budget, wait int, tim
 			execArg = "nil" // an Any-style exec function sees the (nil) value of the error Result
 		}
 	}
+	if it.Pay == "nilitem" && n.PrepShape == "anys" {
+		idesc, execArg = "nil", "nil"
+	}
 	if execArg == "" {
 		execArg = idesc
 	}
@@ -495,6 +498,8 @@ func (m *mstate) runBatch(n *NodeSpec) (string, string) {
 	for i := range vs.Items {
 		if vs.Items[i].Pay == "erritem" && (n.PrepShape == "" || n.PrepShape == "results") {
 			toks = append(toks, "ER("+itemTok(n.ID, v, i)+"E)")
+		} else if vs.Items[i].Pay == "nilitem" && n.PrepShape == "anys" {
+			toks = append(toks, "nil")
 		} else {
 			toks = append(toks, itemTok(n.ID, v, i))
 		}
